@@ -53,6 +53,9 @@ pub enum Op {
     NetworkChange,
     RemoteInfo { remote: u8 },
     Yield(u8),
+    /// wait (at most 70 virtual s) until some state actor has decided to stop for idleness and
+    /// is about to close its inbox; the following ops then run inside that window
+    AwaitCloseWindow,
 }
 
 #[derive(Clone, Debug, Serialize, Deserialize)]
@@ -60,6 +63,10 @@ pub struct Case {
     /// per service: plan for the k-th resolve call (last repeats)
     pub services: Vec<Vec<LookupPlan>>,
     pub ops: Vec<Op>,
+    /// yields the actor takes between deciding to stop for idleness and closing its inbox
+    /// (the window in which, on a multi-threaded runtime, senders still enqueue messages)
+    #[serde(default)]
+    pub close_yields: u32,
     pub seed: u64,
 }
 
@@ -203,6 +210,14 @@ fn gen_case(rng: &mut Rng) -> Case {
     let n = rng.range(3, 14);
     let mut ops = vec![];
     for _ in 0..n {
+        if rng.chance(1, 8) {
+            // a request (or two) landing between an actor's idle decision and the close of its inbox
+            ops.push(Op::AwaitCloseWindow);
+            for _ in 0..rng.range(1, 2) {
+                ops.push(Op::Resolve { remote: rng.range(0, 1) as u8, n_addrs: if rng.coin() { 1 } else { 0 } });
+            }
+            continue;
+        }
         ops.push(match rng.below(12) {
             0..=4 => Op::Resolve { remote: rng.range(0, 1) as u8, n_addrs: if rng.chance(2, 5) { rng.range(1, 2) as u8 } else { 0 } },
             5..=6 => Op::Advance(rng.edgy(0, 70_000, &[59_990, 59_995, 59_999, 60_000, 60_001, 60_005, 60_010, 1, 500, 30_000])),
@@ -212,14 +227,23 @@ fn gen_case(rng: &mut Rng) -> Case {
             _ => Op::Yield(rng.range(1, 4) as u8),
         });
     }
-    Case { services, ops, seed: rng.next_u64() }
+    Case { services, ops, close_yields: *rng.pick(&[0u32, 0, 1, 3, 100, 200]), seed: rng.next_u64() }
 }
 
 fn exec(mode: Mode, case: &Case, ctx: &Ctx) {
     let case = case.clone();
     let ctx2 = ctx.clone();
     let events: Arc<Mutex<Vec<(String, String, At)>>> = Default::default();
-    let hook = E1Hook::install(ctx, case.seed, &[]);
+    let hook = E1Hook::install(ctx, case.seed, &[("remote_actor.before_inbox_close", case.close_yields)]);
+    let close_window = Arc::new(tokio::sync::Notify::new());
+    {
+        let cw = close_window.clone();
+        *hook.0.on_yield.lock().unwrap() = Some(Box::new(move |site| {
+            if site == "remote_actor.before_inbox_close" {
+                cw.notify_waiters();
+            }
+        }));
+    }
     {
         let ev = events.clone();
         let ctx3 = ctx.clone();
@@ -316,6 +340,13 @@ fn exec(mode: Mode, case: &Case, ctx: &Ctx) {
                     }
                 }
                 Op::Yield(n) => yields(*n as u32).await,
+                Op::AwaitCloseWindow => {
+                    let hit = tokio::time::timeout(Duration::from_secs(70), close_window.notified()).await.is_ok();
+                    ctx.ev(format!("op{i} await-close-window hit={hit} t={}", t0.elapsed().as_millis()));
+                    if hit {
+                        ctx.count("probe.ops_inside_close_window");
+                    }
+                }
             }
         }
         // settle: all lookups finish (<= ~1.5 s each), cleanup keeps running like in the socket actor
